@@ -14,7 +14,11 @@ export PYTHONPATH=$WT/pulser-core:$WT/pulser-simulation PYTHONDONTWRITEBYTECODE=
 timeout 300 /venv/bin/python $SRC/demo.py >/tmp/confirm/$ID.demo_clean.log 2>&1; CLEAN=$?
 if ! git apply $SRC/patch.diff 2>/tmp/confirm/$ID.apply.log; then echo "$ID: PATCH DOES NOT APPLY"; exit 3; fi
 timeout 300 /venv/bin/python $SRC/demo.py >/tmp/confirm/$ID.demo_mut.log 2>&1; MUT=$?
-timeout 1500 /venv/bin/python -m pytest -q -p no:cacheprovider -n 6 -q --reruns 2 >/tmp/confirm/$ID.suite.log 2>&1; SUITE=$?
+# tests/test_sequence_sampler.py::test_draw_samples flakes under xdist on a loaded machine: it is run on its own, serially
+timeout 1500 /venv/bin/python -m pytest -q -p no:cacheprovider -n 6 -q --reruns 2 --deselect tests/test_sequence_sampler.py::test_draw_samples >/tmp/confirm/$ID.suite.log 2>&1; SUITE=$?
+if [ $SUITE -eq 0 ]; then
+  timeout 600 /venv/bin/python -m pytest -q -p no:cacheprovider -p no:xdist --reruns 3 tests/test_sequence_sampler.py::test_draw_samples >/tmp/confirm/$ID.suite2.log 2>&1; SUITE=$?
+fi
 TAIL=$(tail -1 /tmp/confirm/$ID.suite.log)
 echo "$ID: demo clean=$CLEAN mutated=$MUT suite_exit=$SUITE [$TAIL]"
 if [ $CLEAN -eq 0 ] && [ $MUT -ne 0 ] && [ $SUITE -eq 0 ]; then
